@@ -345,8 +345,7 @@ func RunC04(tier string) {
 	smp := &evid.Samples{N: 10}
 	var total seqx.Stats
 	spec := c04Spec(tier, "sessions")
-	st := seqx.Explore(run, spec, tier, smp)
-	seqx.Merge(run, "sessions", st, &total)
+	st := seqx.ExploreOrders(run, spec, tier, smp, &total, true)
 	seqx.Finish(run, total, smp, fmt.Sprintf("2 peers (start state: both associated; re-association in the alphabet), <=%d simultaneously live sessions, all event histories to depth %d from there (completed: %d), probe sweep of 6+ SEID classes after every transition",
 		map[string]int{"quick": 3, "thorough": 4}[tier], spec.MaxDepth, st.DepthDone))
 	run.Assumption("the model data plane stands for the gtp5g kernel module (EEXIST / ENOENT semantics)")
